@@ -209,3 +209,106 @@ package decode
 //@   ensures[C13] len(b) > 0 && err == nil ==> size == vs && dataSize == varintVal(mem(b), hi(b) - 1, m) && size == dataSize + m + 1
 //@   ensures[C13] len(b) > 0 && b[len(b)-1] == 90 && vs > 0 ==> err == nil
 //@   canary[C13] err == nil ==> size <= 300
+
+// ---- fixed-width binaries
+
+//@ func DecodeBin64
+//@   safety[C02]
+//@   let vs = valueSize(mem(b), lo(b), hi(b))
+//@   ensures[C02] 0 <= size && size <= len(b)
+//@   ensures[C16] len(b) == 0 ==> size == 0 && err == nil && (forall i :: 0 <= i && i < 8 ==> result0[i] == 0)
+//@   ensures[C13] len(b) > 0 && err == nil ==> size == vs
+//@   ensures[C10] len(b) >= 9 && b[len(b)-1] == 30 ==> err == nil && size == 9 && (forall i :: 0 <= i && i < 8 ==> result0[i] == b[len(b)-9+i])
+//@   ensures[C10] len(b) > 0 && (b[len(b)-1] != 30 || len(b) < 9) ==> err != nil
+
+//@ func DecodeBin128
+//@   safety[C02]
+//@   let vs = valueSize(mem(b), lo(b), hi(b))
+//@   ensures[C02] 0 <= size && size <= len(b)
+//@   ensures[C16] len(b) == 0 ==> size == 0 && err == nil && (forall i :: 0 <= i && i < 16 ==> result0[i] == 0)
+//@   ensures[C13] len(b) > 0 && err == nil ==> size == vs
+//@   ensures[C10] len(b) >= 17 && b[len(b)-1] == 31 ==> err == nil && size == 17 && (forall i :: 0 <= i && i < 16 ==> result0[i] == b[len(b)-17+i])
+//@   ensures[C10] len(b) > 0 && (b[len(b)-1] != 31 || len(b) < 17) ==> err != nil
+
+//@ func DecodeBin256
+//@   safety[C02]
+//@   let vs = valueSize(mem(b), lo(b), hi(b))
+//@   ensures[C02] 0 <= size && size <= len(b)
+//@   ensures[C16] len(b) == 0 ==> size == 0 && err == nil && (forall i :: 0 <= i && i < 32 ==> result0[i] == 0)
+//@   ensures[C13] len(b) > 0 && err == nil ==> size == vs
+//@   ensures[C10] len(b) >= 33 && b[len(b)-1] == 32 ==> err == nil && size == 33 && (forall i :: 0 <= i && i < 32 ==> result0[i] == b[len(b)-33+i])
+//@   ensures[C10] len(b) > 0 && (b[len(b)-1] != 32 || len(b) < 33) ==> err != nil
+
+// ---- floats (bounds and sizes here; the value clauses are under C10 in FP theory)
+
+//@ func decodeFloat64
+//@   safety[C02]
+//@   ensures[C02] 0 - 1 <= result1 && result1 <= len(b)
+//@   ensures[!C02] len(b) >= 5 && b[len(b)-1] == 40 ==> result1 == 5
+//@   ensures[!C02] len(b) >= 9 && b[len(b)-1] == 41 ==> result1 == 9
+//@   ensures[!C02] !(len(b) >= 5 && b[len(b)-1] == 40) && !(len(b) >= 9 && b[len(b)-1] == 41) ==> result1 == 0 - 1
+
+//@ func DecodeFloat32
+//@   safety[C02]
+//@   let vs = valueSize(mem(b), lo(b), hi(b))
+//@   ensures[C02] 0 <= result1 && result1 <= len(b)
+//@   ensures[C16] len(b) == 0 ==> result1 == 0 && result2 == nil
+//@   ensures[C13] len(b) > 0 && result2 == nil ==> result1 == vs
+
+//@ func DecodeFloat64
+//@   safety[C02]
+//@   let vs = valueSize(mem(b), lo(b), hi(b))
+//@   ensures[C02] 0 <= result1 && result1 <= len(b)
+//@   ensures[C16] len(b) == 0 ==> result1 == 0 && result2 == nil
+//@   ensures[C13] len(b) > 0 && result2 == nil ==> result1 == vs
+//@   ensures[C13] len(b) > 0 && vs > 0 && (b[len(b)-1] == 40 || b[len(b)-1] == 41) ==> result2 == nil
+
+// ---- list and message tables
+
+//@ func decodeListTable
+//@   safety[C02]
+//@   let es = ite(big, 4, 2)
+//@   ensures size <= len(b) && size % es == 0 ==> err == nil && result0 == b[len(b)-size:]
+//@   ensures size > len(b) || size % es != 0 ==> err != nil && len(result0) == 0
+
+//@ func decodeMessageTable
+//@   safety[C02]
+//@   let es = ite(big, 6, 3)
+//@   ensures size <= len(b) && size % es == 0 ==> err == nil && result0 == b[len(b)-size:]
+//@   ensures size > len(b) || size % es != 0 ==> err != nil && len(result0) == 0
+
+//@ func DecodeListTable
+//@   safety[C02]
+//@   let vs = valueSize(mem(b), lo(b), hi(b))
+//@   let t = b[len(b)-1]
+//@   let m1 = sizeFieldSize(mem(b), lo(b), hi(b) - 1)
+//@   let ts = varintVal(mem(b), hi(b) - 1, m1)
+//@   let m2 = sizeFieldSize(mem(b), lo(b), hi(b) - 1 - m1)
+//@   let ds = varintVal(mem(b), hi(b) - 1 - m1, m2)
+//@   ensures[C02] 0 <= size && size <= len(b)
+//@   ensures[C02] err == nil ==> within(result0.table, b) && result0.data <= size && len(result0.table) + result0.data <= size
+//@   ensures[C02] err != nil || len(b) == 0 ==> len(result0.table) == 0 && result0.data == 0
+//@   ensures[C16] len(b) == 0 ==> size == 0 && err == nil
+//@   ensures[C13] len(b) > 0 && err == nil ==> size == vs
+//@   ensures[C01,C13] len(b) > 0 && err == nil ==> (t == 70 || t == 71) && result0.big == (t == 71) && result0.data == ds
+//@        && size == 1 + m1 + m2 + ts + ds && result0.table == b[len(b)-1-m1-m2-ts : len(b)-1-m1-m2]
+//@   ensures[C01,C13] len(b) > 0 && (t == 70 || t == 71) && vs > 0 && ts % ite(t == 71, 4, 2) == 0 ==> err == nil
+//@   canary[C13] err == nil ==> size <= 300
+
+//@ func DecodeMessageTable
+//@   safety[C02]
+//@   let vs = valueSize(mem(b), lo(b), hi(b))
+//@   let t = b[len(b)-1]
+//@   let m1 = sizeFieldSize(mem(b), lo(b), hi(b) - 1)
+//@   let ts = varintVal(mem(b), hi(b) - 1, m1)
+//@   let m2 = sizeFieldSize(mem(b), lo(b), hi(b) - 1 - m1)
+//@   let ds = varintVal(mem(b), hi(b) - 1 - m1, m2)
+//@   ensures[C02] 0 <= size && size <= len(b)
+//@   ensures[C02] err == nil ==> within(result0.table, b) && result0.data <= size && len(result0.table) + result0.data <= size
+//@   ensures[C02] err != nil || len(b) == 0 ==> len(result0.table) == 0 && result0.data == 0
+//@   ensures[C16] len(b) == 0 ==> size == 0 && err == nil
+//@   ensures[C13] len(b) > 0 && err == nil ==> size == vs
+//@   ensures[C01,C13] len(b) > 0 && err == nil ==> (t == 80 || t == 81) && result0.big == (t == 81) && result0.data == ds
+//@        && size == 1 + m1 + m2 + ts + ds && result0.table == b[len(b)-1-m1-m2-ts : len(b)-1-m1-m2]
+//@   ensures[C01,C13] len(b) > 0 && (t == 80 || t == 81) && vs > 0 && ts % ite(t == 81, 6, 3) == 0 ==> err == nil
+//@   canary[C13] err == nil ==> size <= 300
